@@ -475,6 +475,11 @@ def nodupB : List Form → Bool
   | [] => true
   | x :: xs => !xs.contains x && nodupB xs
 
+/-- hypotheses of the theorem `encode` returns: the equations `x_g ⟷ …` of all subterms (for an
+atom: `x_g ⟷ atom`) and the formula itself; its conclusion is the CNF -/
+def hypsNamed (names : List Nat) (order : List Form) (f : Form) : List Form :=
+  order.map (fun g => .iff (.atom (varOf names order g)) (rhsOf names order g)) ++ [f]
+
 /-- what the theorems need of the numbering: it lists exactly the subterms of `f`, each once,
 children before parents (`sorted_terms` sorts by size first) -/
 def orderOK (order : List Form) (f : Form) : Bool :=
@@ -493,6 +498,12 @@ def tseitinOrd (f : Form) (extra : List Nat) (o : List Form) : Option CNF :=
   | none => none
 
 def tseitin (f : Form) : Option CNF := tseitinOrd f [] []
+
+/-- hypotheses of `encode`'s theorem (same choice of order and names as `tseitinOrd`) -/
+def tseitinHyps (f : Form) (extra : List Nat) (o : List Form) : Option (List Form) :=
+  match pickOrder f o with
+  | some order => some (hypsNamed (freshNames (f.names ++ extra) order.length) order f)
+  | none => none
 
 /-- the naming before the fix (`x1..xn` regardless of the atoms of `f`) -/
 def tseitinUnfixed (f : Form) (o : List Form) : Option CNF :=
